@@ -366,8 +366,20 @@ func c05CompileInputs(r *core.Rng) []string {
 			out = append(out, base[:k]+string(core.Pick(r, []byte("<>!/.:*")))+"\xff"+base[k:])
 		}
 	}
+	// an odd character put into the sentence, inside or beside a name
+	for i := 0; i < 3 && len(base) > 0; i++ {
+		k := r.Intn(len(base) + 1)
+		out = append(out, base[:k]+core.Pick(r, c05OddRunes)+base[k:])
+	}
 	return out
 }
+
+// characters whose lower or upper case form has another length in UTF-8 (U+212A, U+212B,
+// U+2126, U+1E9E, U+0130, U+0131, U+017F, U+023A, U+023E, U+FB00, U+00DF, U+0149), edges of
+// the XML name classes, combining marks, format characters, non-characters, planes 1 and 14
+var c05OddRunes = []string{"\u212a", "\u212b", "\u2126", "\u1e9e", "\u0130", "\u0131", "\u017f", "\u023a", "\u023e", "\ufb00", "\u00df", "\u0149",
+	"\u00b7", "\u0387", "\u0300", "\u036f", "\u203f", "\u2040", "\u200c", "\u200d", "\u00c0", "\u00d7", "\u00f7", "\u037e", "\u2070", "\u218f", "\u2c00", "\u2fef",
+	"\u3001", "\ud7ff", "\uf900", "\ufdcf", "\ufdd0", "\ufdf0", "\ufffd", "\ufffe", "\uffff", "\U00010000", "\U000effff", "\U000f0000", "\U0010ffff", "\u0085", "\u2028", "\ufeff"}
 
 // ---------------------------------------------------------------- fault enumeration
 
@@ -503,6 +515,18 @@ func (p *c05) Run(tier string, seed int64, idx int) core.CaseResult {
 		}
 		for _, s := range []string{"<\xff", ">\xff", "!\xff", "a\xff", "/\xff", ".\xff", ":\xff", "a:\xff", "*\xff", "1\xff", "'\xff", "(\xff", "a[\xff", "a \xff", "\xff\xff\xff", "\xef\x80\x81", "<\xef\x80\x81"} {
 			c05Compile(s, &res)
+		}
+		// names made of characters whose case mappings change the length of the text, of
+		// characters at the edges of the name classes and of non-characters, in every position
+		// of a path a name can take
+		for _, u := range c05OddRunes {
+			for _, t := range []string{"", "a", "ab"} {
+				n := u + t
+				for _, s := range []string{n, t + u, "../" + n, "/a/" + n + "/b", "../p:" + n, n + ":a", "../" + n + ":" + n, "../if[n = current()/../" + n + "]/n",
+					"/a[" + n + " = 1]/b", n + "(1)", "'" + n + "' = " + n, "deref(../" + n + ")/../x", "@" + n, "$" + n, n + "::a"} {
+					c05Compile(s, &res)
+				}
+			}
 		}
 		res.Sample = map[string]interface{}{"stream": "hostile list x {expr, path_eval, leafref}"}
 	case idx <= l.nCompile:
